@@ -516,6 +516,29 @@ func (g *c05Gen) build(db *formsDB, row *formRow, stream string) *c05Case {
 		if !hi {
 			return nil
 		}
+	case "sibling":
+		// history: first the valid call, then the same call with a same-width NEIGHBOUR of a fixed register
+		// (CL -> BL, AX -> DX, X0 -> X3): form selection must not depend on what was built before
+		sib := map[string][]operand.Op{
+			"al": {reg.CL, reg.BL, reg.R9B}, "cl": {reg.AL, reg.BL, reg.R9B}, "ax": {reg.CX, reg.R10W}, "eax": {reg.ECX, reg.R10L},
+			"rax": {reg.RCX, reg.R10}, "xmm0": {reg.X1, reg.X5},
+		}
+		at := -1
+		for i, t := range types {
+			if _, ok := sib[t]; ok {
+				at = i
+			}
+		}
+		if at < 0 {
+			return nil
+		}
+		var sfx0 []string
+		if len(row.Suffixes) > 0 {
+			sfx0 = pick(g.r, row.Suffixes)
+		}
+		safely(func() error { _, e := x86.VerifBuild(row.Opcode, sfx0, append([]operand.Op(nil), ops...)); return e })
+		ops[at] = pick(g.r, sib[types[at]])
+		return g.buildOps(db, row, "nearmiss:fixed-reg-sibling", sfx0, ops)
 	case "nearmiss":
 		what := g.nearMiss(types, ops)
 		if what == "" {
